@@ -344,7 +344,8 @@ class Recorder:
             s += reads(n, kind, o, self.keys)
         for a in range(len(self.objs)):
             for b in range(a + 1, len(self.objs)):
-                if _family(self.kinds[a]) == _family(self.kinds[b]) and self.kinds[a] not in ("Environ", "EnvironHeaders"):
+                if (_family(self.kinds[a]) == _family(self.kinds[b]) and self.kinds[a] not in ("Environ", "EnvironHeaders")
+                        and "FileMultiDict" not in (self.kinds[a], self.kinds[b])):   # FileStorage values compare by identity
                     try:
                         r = {"tag": "ints", "v": eq_probe(self.objs[a], self.objs[b])}
                     except Exception as e:
@@ -535,10 +536,10 @@ def cover_walks(kind: str, trans: list, maxlen: int, rng) -> list:
 def probe_keys(kind, keys):
     ks = list(dict.fromkeys(keys))
     if kind in ("Headers", "HeaderSet", "EnvironHeaders"):
-        for k in list(ks):
-            for c in (k.upper(), k.lower(), k.swapcase()):
-                if c not in ks:
-                    ks.append(c)
+        for k in list(ks):          # one other-case spelling per name
+            c = k.swapcase()
+            if c not in ks:
+                ks.append(c)
     ks.append("zz")
     return ks
 
@@ -699,6 +700,8 @@ def gen_script(rng, family: str, nsteps: int):
                 steps.append({"op": "call", "o": 1, "name": "env_set", "a": A(k=rng.choice(ENV_KEYS), v=rng.choice(ENV_VALS))})
                 continue
         name = rng.choice(muts)
+        if name == "add_file" and kind != "FileMultiDict":
+            name = "add"
         pk = ENV_PROBES if kind == "EnvironHeaders" else (keys[:5] if kind == "HeaderSet" else keys)
         steps.append({"op": "call", "o": o, "name": name, "a": rand_args(rng, kind, name, pk, vals or keys, 3, fresh)})
     if family == "environ":
